@@ -336,3 +336,22 @@ impl crate::Logger {
         }
     }
 }
+
+// --------------------------------------------------------------------------
+// Clock override for the time trigger: identity unless a harness / replay set
+// an instant (seconds and nanoseconds since the Unix epoch).
+// --------------------------------------------------------------------------
+
+pub static mut CLOCK: Option<(i64, u32)> = None;
+
+#[cfg(feature = "chrono")]
+pub fn clock(real: chrono::DateTime<chrono::Local>) -> chrono::DateTime<chrono::Local> {
+    use chrono::TimeZone;
+    match unsafe { CLOCK } {
+        Some((secs, nanos)) => match chrono::Utc.timestamp_opt(secs, nanos) {
+            chrono::LocalResult::Single(t) => t.with_timezone(&chrono::Local),
+            _ => real,
+        },
+        None => real,
+    }
+}
